@@ -8,6 +8,7 @@ from lib import Manual
 from concurrent.futures import InvalidStateError
 
 MACHINE = "poll"
+ENV_CANCEL = True
 DONE = ("CANCELLED", "CANCELLED_AND_NOTIFIED", "FINISHED")
 POLLER = "PollExecutor-default"
 
@@ -110,7 +111,10 @@ def gen(rng, faults=True):
         sync = rng.random() < 0.15
         env = None
         if not sync and rng.random() < 0.9:
-            env = {"at": at + 2 * rng.choice([0, 0, 1, 1, 2, 3]), "run_first": rng.random() < 0.5, "gap": rng.choice([0, 0, 2])}
+            env = {"at": at + 2 * rng.choice([0, 0, 1, 1, 2, 3]), "run_first": rng.random() < 0.5, "gap": rng.choice([0, 0, 2]),
+                   # the delegate future is cancelled by SOMEONE ELSE (a timeout layer below, a shutdown sweep ...) instead of
+                   # finishing: the poll future then stays pending for ever (known finding G1; Model/Poll.v EEnvCancel)
+                   "cancel": ENV_CANCEL and rng.random() < 0.1}
         subs.append({"out": out, "sync": sync, "env": env})
         ops.append({"op": "submit", "i": i, "at": at, "client": rng.randrange(nclients)})
         base = env["at"] + env["gap"] if env else at
@@ -253,6 +257,10 @@ def execute(p, chooser):
                     det.wait_until(lambda: i in futs)
                     d = obs["jof"][i]
                     e = p["subs"][i]["env"]
+                    if e.get("cancel"):
+                        m.fs[d][0].cancel()
+                        det.emit("ret", "env", 0)
+                        continue
                     if e["run_first"]:
                         if not m.start(d):
                             continue
@@ -316,6 +324,7 @@ def encode(log, params=None):
     jm = submap(log)
     envout = {}
     pending_inline = []
+    envcancel_quiet = {}
     n = len(log)
     i = 0
     cfg = None
@@ -340,6 +349,8 @@ def encode(log, params=None):
                 ev.append([ts, 3, t])
             continue
         if op == "ret":
+            if obj == "env" and envcancel_quiet.pop(th, False):
+                continue          # a cancel() that found the delegate already done / cancelled runs no callback: nothing returns in the model
             ev.append([ts, 11, t, val])
             continue
         if op in ("acq", "rel") and obj == "G":
@@ -374,6 +385,10 @@ def encode(log, params=None):
             ev.append([ts, 14, t, FOPS_P[op], int(obj[1:]), val])
             continue
         if th.startswith("e") and str(obj).startswith("d"):
+            if op == "F.cancel":
+                ev.append([ts, 26, t, int(obj[1:]), val])
+                envcancel_quiet[th] = (val != 0)
+                continue
             if op == "F.set_running_or_notify_cancel":
                 ev.append([ts, 24, t, int(obj[1:]), val])
                 continue
